@@ -5,6 +5,7 @@ import (
 
 	"verifsim/core"
 	"verifsim/harness"
+	"verifsim/world"
 )
 
 // C04 — a result depends only on the bytes of that call (DESIGN §5 C04).
@@ -131,7 +132,19 @@ func init() {
 			for i := 0; i < ng; i++ {
 				later = append(later, drawOp(c, c.L(fmt.Sprintf("later:%d", i)), true))
 			}
-			c.Descf("probe: %s", probe)
+			// the probe's stream may arrive in pieces (the same pieces in both executions): what lies
+			// behind the delivered bytes in a pooled reader's buffer is the previous call's data, and
+			// it is within reach only while the current stream has not overwritten it
+			var pd Delivery
+			if x := c.L("dev:0:x"); x.Chance(1, 3) {
+				if len(probe.fmap) > 0 && x.Bool() {
+					pd = Delivery{Piece: world.PieceAligned, Bounds: boundsFromMap(probe.fmap, len(probe.data)), DataEOF: x.Bool()}
+				} else {
+					pd = drawDelivery(x)
+				}
+				c.Inc("fault:short-delivery-of-the-probe:configured")
+			}
+			c.Descf("probe: %s delivery=%s", probe, pd)
 			for i, h := range hist {
 				c.Descf("history[%d]: %s", i, h)
 			}
@@ -146,7 +159,7 @@ func init() {
 			harness.LogDefault()
 			harness.GCPoint()
 			budget(probe)
-			ref, _ := probe.run(c, Delivery{})
+			ref, _ := probe.run(c, pd)
 			if c.PlanOnly {
 				return
 			}
@@ -173,7 +186,7 @@ func init() {
 				c.Inc("probe:zone-cache-non-empty-before-probe")
 			}
 			budget(probe)
-			got, _ := probe.run(c, Delivery{})
+			got, _ := probe.run(c, pd)
 			c.Inc("entry:" + probe.e.Name)
 			if (nh > 0 || res != harness.ResNone) && eb+pb+rb > 0 {
 				c.NonTrivial = true
